@@ -466,6 +466,9 @@ def sweeps(tier, rng):
                 mem = [gl2.pop(), gl2.pop()][: rng.randint(1, 2)]; groups[nm] = mem
                 for g_ in mem: side2[g_] = nm
             if rng.chance(30): groups["other"] = ["a", "b"]
+            if rng.chance(30):
+                # a group that bears the name of a glyph of the font: in a kerning pair that name means the GLYPH
+                gn = rng.choice(GLY[:4]); groups[gn] = [gn, rng.choice(GLY)]
             firsts = GLY[:4] + sorted(set(side1.values())); seconds = GLY[:4] + sorted(set(side2.values()))
             # (glyphs named like UFO 3 kerning groups are left to the correspondence: UFO 3 cannot tell such a glyph from a group, so
             # "the pair kerns as before" has no meaning for them; what can be asked -- no value is dropped or moved -- is asked there)
@@ -484,8 +487,8 @@ def sweeps(tier, rng):
                     if nm.startswith("public.kern2."):
                         for g_ in mem: n2[g_] = nm
                 # groups that are used as a kerning side in the old data (the converter decides that from the pairs and the prefixes)
-                used1 = {nm for nm in groups if nm.startswith("@MMK_L_") or nm in kerning}
-                used2 = {nm for nm in groups if nm.startswith("@MMK_R_") or any(nm in v for v in kerning.values())}
+                used1 = {nm for nm in groups if nm.startswith("@MMK_L_") or (nm in kerning and nm not in GLY)}
+                used2 = {nm for nm in groups if nm.startswith("@MMK_R_") or (any(nm in v for v in kerning.values()) and nm not in GLY)}
                 o1 = {g_: nm for g_, nm in side1.items() if nm in used1}; o2 = {g_: nm for g_, nm in side2.items() if nm in used2}
                 for l in GLY + XG:
                     for r in GLY + XG:
